@@ -200,7 +200,17 @@ func (w *World) renameAliases(all map[*ssa.Function]bool) {
 // called statically from exactly one site of the package, is used in no other way (no function value, no go/defer,
 // no interface that could dispatch to it) and can be inlined. It returns the names inlined and an error when an
 // inlined caller fails go/ssa's consistency check (the caller must then reload without inlining).
-func inlineNewHelpers(prog *ssa.Program, main *ssa.Package, renamed map[*ssa.Function]string) ([]string, error) {
+func inlineNewHelpers(prog *ssa.Program, main *ssa.Package, renamed map[*ssa.Function]string) (done []string, err error) {
+	// the transformation lives outside go/ssa's own tests: whatever goes wrong in it, the program is analysed as written
+	defer func() {
+		if r := recover(); r != nil {
+			err = fmt.Errorf("helper inliner panicked: %v", r)
+		}
+	}()
+	return inlineNewHelpers1(prog, main, renamed)
+}
+
+func inlineNewHelpers1(prog *ssa.Program, main *ssa.Package, renamed map[*ssa.Function]string) ([]string, error) {
 	base := baselineFuncs()
 	if len(base) < 200 {
 		return nil, fmt.Errorf("baseline function inventory has only %d entries", len(base))
